@@ -136,6 +136,7 @@ type SrvOpts struct {
 	Addr           string
 	NoRun          bool
 	StartTLS       *tls.Config // configuration the StartTLS handler hands to Request.StartTLS (default: the PKI's server configuration)
+	LegacyTLS      bool        // StartTLS with the RSA / TLS 1.0+ configuration (generated on first use only: RSA key generation is slow)
 }
 
 const defaultAddr = "127.0.0.1:3890"
